@@ -15,6 +15,7 @@ import (
 	"strings"
 	"sync"
 	"time"
+	"verifharness/c01/bx"
 
 	"github.com/Eyevinn/mp4ff/bits"
 	"github.com/Eyevinn/mp4ff/mp4"
@@ -190,7 +191,7 @@ func pipeline(data []byte, c decCfg, withObs bool) string {
 		g = redo()
 		g.FragEncMode = mode
 		p, over, dt, da = measured(n, func() {
-			sw := bits.NewFixedSliceWriter(2*n + 4096)
+			sw := bx.DirtyWriter(2*n + 4096)
 			err = g.EncodeSW(sw)
 		})
 		note(n, dt, da)
